@@ -1,3 +1,6 @@
+\* C04 quick tier: trees T1-T3 (T4 for the nested family); every single line of the grammar at the root and
+\* in the sub-directory (case-sensitive on T1-T3, case-insensitive on T1 and, literal bodies only, on T2); two root lines PA x PB in both
+\* orders (T1, T2); one root line x one nested line (T1-T4).  About 6 600 repositories.
 SPECIFICATION Spec
 CONSTANTS
   Seeds <- QuickSeeds
